@@ -102,7 +102,7 @@ class Opaque:
     pass
 
 
-WRAPS = ['not', 'and-role', 'or-role', 'true-and', 'false-or', 'alias', 'not-not', 'and-true-after']
+WRAPS = ['not', 'and-role', 'or-role', 'true-and', 'false-or', 'alias', 'not-not', 'and-true-after', 'role-first-and', 'role-first-or']
 
 # ---- keys that the target and the credentials have in common (stratum K) ------------------------------------------
 # "filled from the target": nothing says that a key of the target is not a key of the credentials as well - project_id,
@@ -175,7 +175,9 @@ def b_share(idx):
 
 def make_creds(case, roles):
     """-> (what is passed to enforce, the credentials the server must receive, True when further keys may come with them)."""
-    base = {'roles': list(roles), 'user_id': 'u1', 'project_id': 'p'}
+    # every request also holds the mixed-case role PvAlways (used by the wrap `role-first-and`, whose role check must pass so
+    # that the remote check behind it is reached)
+    base = {'roles': list(roles) + ['PvAlways'], 'user_id': 'u1', 'project_id': 'p'}
     extra = copy.deepcopy(case.get('cshare') or {})
     if case.get('cform') == 'context':
         from oslo_context import context
@@ -194,6 +196,18 @@ def fill_from_target(template, target):
         return None
 
 
+def mixed_roles(rnd):
+    """Roles a / b, each held or not, spelled in lower, upper or mixed case, plus a mixed-case bystander: what is sent to the
+    server must be the caller's own spelling."""
+    out = []
+    for r in ('a', 'b'):
+        if rnd.random() < 0.5:
+            out.append(rnd.choice([r, r.upper()]))
+    if rnd.random() < 0.5:
+        out.append(rnd.choice(['ImageAdmin', 'Member', 'reader']))
+    return out
+
+
 def build_rules(case):
     """Rules that place the remote check at the requested depth; the check is always evaluated (never short-circuited).
     Returns (rules dict, reference function leaf_value, roles -> bool)."""
@@ -205,9 +219,15 @@ def build_rules(case):
         if wname == 'not':
             text, f = 'not ' + text, (lambda v, roles: not v)
         elif wname == 'and-role':
-            text, f = '(%s and role:a)' % text, (lambda v, roles: v and 'a' in roles)
+            text, f = '(%s and role:a)' % text, (lambda v, roles: v and 'a' in [r.lower() for r in roles])
         elif wname == 'or-role':
-            text, f = '(%s or role:b)' % text, (lambda v, roles: v or 'b' in roles)
+            text, f = '(%s or role:b)' % text, (lambda v, roles: v or 'b' in [r.lower() for r in roles])
+        elif wname == 'role-first-and':
+            # a role check is evaluated BEFORE the remote check in the same request (the remote check is still reached:
+            # the request always holds role a in these cases, see roles_for)
+            text, f = '(role:pvalways and %s)' % text, (lambda v, roles: v)
+        elif wname == 'role-first-or':
+            text, f = '(role:zz-nobody or %s)' % text, (lambda v, roles: v)
         elif wname == 'true-and':
             text, f = '(@ and %s)' % text, (lambda v, roles: v)
         elif wname == 'false-or':
@@ -633,7 +653,7 @@ def gen_sequence(rnd):
     return seq_case(steps, ctype=rnd.choice(CTYPES), scheme=rnd.choice(['https', 'https', 'https', 'http']),
                     wraps=[rnd.choice(WRAPS) for _ in range(rnd.randint(0, 4))], name=rnd.choice(NAMES),
                     path=rnd.choice(['/%(name)s/check', '/check', '/v1/%(id)s?x=%(flag)s', ':8080/p']),
-                    roles=[r for r in 'ab' if rnd.random() < 0.5], opaque=rnd.random() < 0.5)
+                    roles=mixed_roles(rnd), opaque=rnd.random() < 0.5)
 
 
 OVERLAPS = {'quick': 10, 'thorough': 150}
@@ -829,7 +849,7 @@ def run(ctx):
                     ctype=rnd.choice(CTYPES), scheme=rnd.choice(['http', 'https']),
                     wraps=[rnd.choice(WRAPS) for _ in range(rnd.randint(0, 5))], name=rnd.choice(NAMES),
                     path=rnd.choice(['/%(name)s/check', '/check', '/v1/%(id)s?x=%(flag)s', '/%(name)s/%(name)s', ':8080/p']),
-                    roles=[r for r in 'ab' if rnd.random() < 0.5], opaque=rnd.random() < 0.5, tls=rnd.random() < 0.4,
+                    roles=mixed_roles(rnd), opaque=rnd.random() < 0.5, tls=rnd.random() < 0.4,
                     then_ctype=rnd.choice([None, None] + CTYPES), secrets=rnd.random() < 0.4, debug=rnd.random() < 0.4,
                     nested_opaque=rnd.random() < 0.1)
         if krnd.random() < 0.5:
